@@ -1,6 +1,6 @@
 """C14 — signals reach every connected handler exactly once per emit.
 
-Two sub-checks share one interpreter (``run_machine``) that drives the real signal machinery and a
+Four sub-checks share one interpreter (``run_machine``) that drives the real signal machinery and a
 list model of the connections side by side:
 
 * ``hist``    exhaustive enumeration of bounded histories of connect / disconnect(args) /
@@ -8,11 +8,22 @@ list model of the connections side by side:
               behaviour enumerated over {plain, returns True, disconnects itself, disconnects the
               previous / next handler, connects a new handler, emits recursively}.
 * ``args``    exhaustive small sweep over argument shapes (0..2 weak args x 0..2 user args x 0..2
-              emitted args x function/bound-method callback x module API/own Signals() x sender kind).
+              emitted args x function/bound-method callback x module API/own Signals() x sender kind)
+              and over the way the arguments are handed over: list / tuple / one-shot generator at
+              connect (a list is afterwards left alone, extended or emptied by the caller) x list /
+              tuple / generator at disconnect(args); every connection is emitted to several times.
+* ``moment``  "weak arguments are garbage-collected at any moment": one operation (connect to the
+              same / another name / another sender / an unregistered name, disconnect(args) of the
+              first / middle / last / an unconnected handler, disconnect_by_key likewise, emit) on a
+              slot holding three connections x every source line of urwid/signals.py the operation
+              executes (sys.settrace line events, counted on the tree under test) x the weak argument
+              that dies at that line (of the first / middle / last connection, of the one being
+              connected).  Later emits, connects and disconnects judge the result.
 * ``machine`` Hypothesis op lists (<= 25 ops) with parametrised handler behaviours, duplicate
               connections, per-connection tags, ``del weak_arg; gc.collect()`` at generated points
-              (top level and inside handlers, i.e. collection mid-emit), sender drops, no-op
-              disconnects and unregistered-name connects.
+              (top level, inside handlers, i.e. collection mid-emit, and - op ``arm`` - at the k-th
+              line of signals.py executed by the next operation), sender drops, no-op disconnects,
+              unregistered-name connects, list / tuple / generator argument containers per handler.
 
 Oracle (per emit "frame", nested emits are frames of their own):
   S = model list of the slot when the emit starts; a connection is *touched* if it is removed
@@ -50,10 +61,21 @@ RULE = (
     "names [thorough: <= 5 on 2x2x3 plus length 6 on one sender x one name] of connect / disconnect(args) / "
     "disconnect_by_key / emit, times every assignment of the 7 behaviours {plain, returns True, "
     "disconnects itself, disconnects previous, disconnects next, connects a new handler, emits "
-    "recursively} to the handlers that get connected; args: all argument shapes (weak 0-2 x user 0-2 x "
-    "emitted 0-2 x func/method x API x 5 sender kinds); machine: Hypothesis op lists <= 25 ops over 2 "
-    "senders (5 kinds) x 2 names x 3-5 parametrised handlers with weak-argument drops + gc.collect() at "
-    "top level and inside handlers, sender drops, duplicates, no-op disconnects, unregistered names. "
+    "recursively} to the handlers that get connected (handler 1 hands its arguments over as one-shot "
+    "generators, handler 2 as a list it extends afterwards and disconnects with a tuple); args: all argument shapes (weak 0-2 x user 0-2 x "
+    "emitted 0-2 x func/method x API x 5 sender kinds) plus all ways of handing the arguments over "
+    "(connect with list / list extended afterwards / list emptied afterwards / tuple / one-shot generator x "
+    "disconnect(args) with list / tuple / generator x weak 0-2 x user 0-2 x func/method); moment: 14 "
+    "operations (connect same slot / other name / other sender / unregistered, disconnect(args) first / "
+    "middle / last / unconnected, disconnect_by_key first / middle / last / other name, emit same / other "
+    "name) on a slot with three connections x every line of urwid/signals.py the operation executes "
+    "(line events of sys.settrace, counted per operation on the tree under test) x which of 4 weak "
+    "arguments loses its last reference (+ gc.collect()) at that line x API x 3 sender kinds, followed by "
+    "emits, a further connect and disconnects; machine: Hypothesis op lists <= 25 ops over 2 "
+    "senders (5 kinds) x 2 names x 3-5 parametrised handlers (argument container list / tuple / generator, "
+    "list mutated after connect) with weak-argument drops + gc.collect() at top level, inside handlers and "
+    "('arm') at the k-th signals.py line of the next operation, sender drops, duplicates, no-op disconnects, "
+    "unregistered names. "
     "Non-trivial: the history contains an emit on a slot to which a handler that changes the handler "
     "list (disconnect / connect / weak-argument drop) has been connected, or a weak argument is dropped "
     "(static rule); the classes dyn:* count emits during which the list really changed / an argument died."
@@ -69,6 +91,17 @@ ASSUMPTIONS = [
     "handlers connected from inside a handler are connected to handlers that cannot connect further "
     "handlers to the slot being emitted without bound (target index strictly larger), recursion depth "
     "<= 2, so every history terminates; a history making more than 400 callback calls is discarded",
+    "weak_args / user_args are documented and annotated as iterables: lists, tuples and one-shot generators "
+    "are passed; the items, not the container, are 'the arguments given at connect time', so a list the "
+    "caller changes after connect_signal() returned does not change the connection, a generator-connected "
+    "handler gets its arguments on every emit, and disconnect(args) may be given another kind of iterable "
+    "with the same items",
+    "'garbage-collected at any moment' is modelled at the granularity of executed source lines of "
+    "urwid/signals.py (sys.settrace line events, including the backward jumps of its loops, where CPython "
+    ">= 3.12 actually runs the collector): moments inside one line are not reached; the death is produced "
+    "by dropping the harness's only strong reference (+ gc.collect()), not by the cyclic collector itself",
+    "the known-finding predicate for C14-disconnect-iterates-live-list reads the parameters obj / name of the "
+    "interrupted disconnect / disconnect_by_key frame (diagnosis only, never the oracle)",
 ]
 
 _CTX = None  # set by shard(): dynamic class counters
